@@ -14,3 +14,7 @@ cargo build --offline --bins 2>&1 | tail -3
 cd "$V/harness-static"
 cp /repo/Cargo.lock Cargo.lock
 cargo build --offline --bins 2>&1 | tail -3
+# fourth workspace: tracing built with `log` + `log-always` (C18 / evaluation counts under log-always)
+cd "$V/harness-logalways"
+cp /repo/Cargo.lock Cargo.lock
+cargo build --offline --bins 2>&1 | tail -3
